@@ -39,6 +39,14 @@ V("c09f-shape-read-after-assign", "C09", "silent",
   (GSTEPS, "    auxiliary_index = get_auxiliary_operator_index(modes, auxiliary_modes)\n\n    state._C = connector.assign(",
    "    auxiliary_index = get_auxiliary_operator_index(modes, auxiliary_modes)\n    C = state._C\n\n    state._C = connector.assign(", 1),
   (GSTEPS, "    assign_index = np.ix_(np.arange(state.d), np.array(modes))", "    assign_index = np.ix_(np.arange(state._C.shape[0]), np.array(modes))", 2))
+DRE = "piquasso/dual_rail_encoding.py"
+V("c19d-qubit-register-local-index", "C19", {"rule": "C19d", "contains": "register-local"},
+  (DRE, "qubit_indices = [qc.find_bit(q).index for q in instr_qiskit.qubits]", "qubit_indices = [qubit._index for qubit in instr_qiskit.qubits]"))
+V("c19d-clbit-register-local-index", "C19", {"rule": "C19d", "contains": "register-local"},
+  (DRE, "_get_condition_function(qc.find_bit(cond[0]).index, cond[1])", "_get_condition_function(cond[0]._index, cond[1])"))
+V("c19d-find-bit-through-local", "C19", "silent",
+  (DRE, "qubit_indices = [qc.find_bit(q).index for q in instr_qiskit.qubits]",
+   "locations = [qc.find_bit(q) for q in instr_qiskit.qubits]\n        qubit_indices = [location.index for location in locations]"))
 # ------------------------------------------------------------------------------------------- C20
 V("c20-sub-add", "C20", {"rule": "C20c", "contains": "Sub"}, (EXPR, "ast.Sub: op.sub", "ast.Sub: op.add"))
 V("c20-lt-le", "C20", {"rule": "C20c", "contains": "Lt"}, (EXPR, "ast.Lt: op.lt", "ast.Lt: op.le"))
